@@ -163,7 +163,7 @@ fn call(b: Builder, m: &mut Model, slot: usize, c: usize) -> Builder {
             b.rsdpv2(t)
         }
         15 => {
-            let map: Vec<u8> = if look { END.iter().copied().cycle().take(48 * (1 + (c - 3000) % 3)).collect() } else { vec![0x5Au8.wrapping_add(s as u8); 48 * ((c % 1000) + 1)] };
+            let map: Vec<u8> = if (7000..7006).contains(&c) { (0..[44usize, 49, 52, 63, 1, 0][c - 7000]).map(|i| marker(i, 77)).collect() } else if look { END.iter().copied().cycle().take(48 * (1 + (c - 3000) % 3)).collect() } else { vec![0x5Au8.wrapping_add(s as u8); 48 * ((c % 1000) + 1)] };
             let t = EFIMemoryMapTag::new_from_map(48, 1, &map);
             m.put(slot, supplied(&*t));
             b.efi_mmap(t)
@@ -283,13 +283,18 @@ fn judge(ctx: &mut Ctx, what: &dyn Fn() -> String, m: &Model, built: &[u8], addr
     ctx.class("build:exact");
 }
 
+const START_DEFAULT: usize = usize::MAX;
+
 fn run_program(ctx: &mut Ctx, prog: &[(usize, usize)], what: &dyn Fn() -> String) {
     {
         let mut m = Model::new();
         let r = ctx.call("builder calls + build", || {
-            let mut b = Builder::new();
+            // a first element (START_DEFAULT, _) stands for "start from Builder::default() instead of Builder::new()"
+            let mut b = if prog.first().map(|p| p.0) == Some(START_DEFAULT) { Builder::default() } else { Builder::new() };
             for &(slot, c) in prog {
-                b = call(b, &mut m, slot, c);
+                if slot != START_DEFAULT {
+                    b = call(b, &mut m, slot, c);
+                }
             }
             b.build()
         });
@@ -308,9 +313,11 @@ fn run_program(ctx: &mut Ctx, prog: &[(usize, usize)], what: &dyn Fn() -> String
     let live0 = ledger::live();
     let r = ctx.call("build (ledger)", || {
         let mut m = Model::new();
-        let mut b = Builder::new();
+        let mut b = if prog.first().map(|p| p.0) == Some(START_DEFAULT) { Builder::default() } else { Builder::new() };
         for &(slot, c) in prog {
-            b = call(b, &mut m, slot, c);
+            if slot != START_DEFAULT {
+                b = call(b, &mut m, slot, c);
+            }
         }
         let s = b.build();
         s.as_bytes().len()
@@ -486,6 +493,30 @@ fn run(ctx: &mut Ctx) {
     for v in 0..14usize {
         for prog in [vec![(21usize, 6000 + v)], vec![(21, 6000 + v), (21, 6000 + (v + 1) % 14)], vec![(21, 6000 + v), (21, 6000 + v)], vec![(15, 1), (21, 6000 + v), (21, 6000 + v), (17, 0)], vec![(2, 1), (21, 6000 + v), (0, 1)]] {
             let describe = || J::obj().set("part", "custom_type_numbers").set("calls", J::Arr(prog.iter().map(|(s, c)| J::from(format!("{}#{}", SLOT_NAMES[*s], c))).collect()));
+            ctx.leaf(describe, |ctx| {
+                ctx.state_direct();
+                ctx.nontrivial();
+                run_program(ctx, &prog, &|| format!("calls {:?}", prog));
+            });
+        }
+    }
+    ctx.bound("default_start_and_odd_maps", "every program of up to two calls started from Builder::default() instead of Builder::new() (the two must be the same builder); EFI memory maps of 44, 49, 52, 63, 1 and 0 bytes (the tag's size is then not a multiple of 8) alone and between other tags");
+    {
+        let mut progs: Vec<Vec<(usize, usize)>> = vec![vec![(START_DEFAULT, 0)]];
+        for a in 0..NSLOTS {
+            progs.push(vec![(START_DEFAULT, 0), (a, 1)]);
+            for b2 in 0..NSLOTS {
+                if (a + b2) % 5 == 0 {
+                    progs.push(vec![(START_DEFAULT, 0), (a, 1), (b2, 2)]);
+                }
+            }
+        }
+        for v in 0..6usize {
+            progs.push(vec![(15, 7000 + v)]);
+            progs.push(vec![(0, 1), (15, 7000 + v), (20, 1)]);
+        }
+        for prog in progs {
+            let describe = || J::obj().set("part", "default_start_and_odd_maps").set("calls", J::Arr(prog.iter().map(|(s, c)| J::from(if *s == START_DEFAULT { "Builder::default()".to_string() } else { format!("{}#{}", SLOT_NAMES[*s], c) })).collect()));
             ctx.leaf(describe, |ctx| {
                 ctx.state_direct();
                 ctx.nontrivial();
